@@ -433,3 +433,16 @@ def run(ck):
         c04_4(ck, prog)
         c04_5(ck, prog)
         c04_6(ck, prog)
+        r = ck.rule('C04.8', 'name ownership is kept in one registry for the life of the bus: the registry object and its '
+                    'table of names are created once and released only by their destructors', 'WHO',
+                    breaks='a reload or any other operation that recreated the registry forgets every owner and queue',
+                    floor=2)
+        lib.state_lifetime(prog, r, [('BusRegistry', 'service_hash'), ('BusContext', 'registry')])
+        from rules import listshape
+        r = ck.rule('C04.9', 'the list primitives the owner queue is edited with keep a circular doubly-linked list a '
+                    'circular doubly-linked list, for an anchor at any position (shape analysis of link_before / '
+                    'link_after / _dbus_list_unlink over all lists of up to three nodes; locality extends it to any '
+                    'length)', 'ABS',
+                    breaks='inserting a queued owner in the middle of the queue (REPLACE_EXISTING with waiters) '
+                    'corrupts the backward chain: waiting owners vanish from the queue', floor=5)
+        listshape.check(prog, r)
